@@ -80,7 +80,7 @@ Balanced(claim, np, nd) == IF claim THEN np = nd + 1 ELSE np = nd
 (***************************************************************************)
 StopBound(variant, timeout, ddur, wait) ==
   IF variant = "stop" THEN 5000000 + ddur
-  ELSE timeout + (IF wait THEN ddur ELSE 0)
+  ELSE timeout                     \* all phases of StopWithContext share its time-out
 
 (***************************************************************************)
 (* C10  promptness of preemption                                           *)
